@@ -156,7 +156,10 @@ pub fn oracle(s: &ProgScene<X>, t: &Trace) -> Vec<Violation> {
             crate::check::oblige("self-sent-letters");
             let enter = an.enter_of_msg(0, id).first().map(|e| e.idx);
             subs.push(Sub { id, begin: i, end: Some(i), ok, enter, letter: "SelfNote".into() });
-            if ok && enter.is_none() && t.res.end == crate::vexec::EndReason::Quiescent {
+            // (posted before the owner began to stop the actor: a letter that lands behind the
+            // stop request is accepted and, by C04, never handled)
+            let before_stop = an.ops.iter().filter(|o| matches!(s.clients.get(o.c as usize).and_then(|cs| cs.ops.get(o.i as usize)), Some(Op::Consume(_) | Op::Stop(_)))).all(|o| o.begin > i);
+            if ok && enter.is_none() && before_stop && t.res.end == crate::vexec::EndReason::Quiescent {
                 out.push(Violation {
                     clause: "fifo-order",
                     key: format!("C01/self-sent-letter-lost/mailbox={mb}"),
@@ -314,6 +317,7 @@ pub fn make_case_gap(progs: &[Vec<L>], mailbox: Mailbox) -> Case {
 }
 
 thread_local! {
+    static SLOW_START: std::cell::Cell<bool> = const { std::cell::Cell::new(false) };
     static GAP: std::cell::Cell<bool> = const { std::cell::Cell::new(false) };
     /// the actor runs an interval timer (period 1) registered in started()
     static TICKING: std::cell::Cell<bool> = const { std::cell::Cell::new(false) };
@@ -352,6 +356,12 @@ pub fn make_case_t(progs: &[Vec<L>], mailbox: Mailbox, yields: u8, bound: Option
         clients.push(ClientSpec { init, ops });
     }
     let mut role = RoleCfg { default_work: Work { yields, ..Work::default() }, ..RoleCfg::default() };
+    if SLOW_START.with(|g| g.get()) {
+        // started() gives way once and then takes a tick: the clients' letters arrive while the
+        // actor is still starting
+        role.started_yields = 1;
+        role.started_sleep = 1;
+    }
     let mut spawn = SpawnCfg::plain(mailbox);
     if GAP.with(|g| g.get()) {
         spawn.timeout = Some((2, false));
@@ -589,6 +599,18 @@ fn cases(tier: Tier) -> Vec<Case> {
         c.bound = c.bound.or(Some(if tier == Tier::Thorough { 5 } else { 3 }));
         c
     }));
+    // ... and with a started() that takes its time (every fifth case; thorough: every second):
+    // what arrives while the actor is starting is handled afterwards, in the order it arrived
+    {
+        let step = if tier == Tier::Thorough { 2 } else { 5 };
+        SLOW_START.with(|g| g.set(true));
+        let ss = plain_cases(tier);
+        SLOW_START.with(|g| g.set(false));
+        v.extend(ss.into_iter().enumerate().filter(|(i, c)| i % step == 1 && !c.desc.contains("slow=Some")).map(|(_, mut c)| {
+            c.desc = c.desc.replacen("fifo", "fifo [started() takes a tick]", 1);
+            c
+        }));
+    }
     // ... and with a stream that yields one item and then *ends* (every seventh case; thorough:
     // every second): the actor ends with the stream, possibly with letters still in its mailbox -
     // whatever it does handle, it handles in order, once
